@@ -7,6 +7,31 @@ TRUST = ("Trusted base: go/ssa (x/tools v0.50.0), the forked ssa/interp core and
          "Bounds are those printed in the evidence file; anything outside them is not claimed. ")
 
 CHECKS = {
+ "C01": dict(
+  technique="bounded symbolic execution (go/ssa -> SMT, z3) of one placement step of the scheduler on the real types: NodeClaim.CanAdd/Add + FinalizeScheduling + InstanceTypes filtering for a new NodeClaim, and NewExistingNode/ExistingNode.CanAdd/Add for an existing or in-flight node; symbolic requests, capacities, overheads, offering availability; independent admissibility oracle",
+  text="New NodeClaim: whenever a pod with symbolic cpu/memory requests, an optional zone/capacity-type/custom-label selector, tolerations and host port is accepted onto a NodeClaim of a NodePool with 2 instance types x 2 offerings, every remaining instance type is compatible with the merged requirements, fits requests + daemon overhead, and has an available compatible offering; taints are tolerated and host ports do not clash. Existing node: a pod is accepted only if requests fit what is left after bound pods and the remaining DaemonSet overhead, requirements and taints admit it. Known finding C01-F1 is reported.",
+  ref="DESIGN.md §7 C01",
+  note="One placement step from a symbolic pre-state (not whole Solve passes): queue ordering, relaxation of preferences, timeouts, volume topology, DRA and minValues are outside. Topology constraints are C02's subject."),
+ "C02": dict(
+  technique="bounded symbolic execution (go/ssa -> SMT, z3) of TopologyGroup.Get/nextDomainTopologySpread/AntiAffinity/Affinity with symbolic domain counts, and of two placements through the real Topology (AddRequirements/Record) in either order",
+  text="One step per topology group from symbolic counts (3 zone domains, counts 0..1000, maxSkew 1..5, optional minDomains): a domain offered for a DoNotSchedule spread keeps the skew within maxSkew against the global minimum (with the minDomains rule), anti-affinity offers only empty domains, affinity only occupied ones (or any for the first self-affine pod). Two pods placed in one pass in either order never end up violating a required anti-affinity in either direction or a zonal spread.",
+  ref="DESIGN.md §7 C02",
+  note="Hostname topologies, already-running pods loaded from the API (countDomains), namespace selectors, matchLabelKeys and node-affinity/taint policies of spread constraints are outside."),
+ "C04": dict(
+  technique="bounded symbolic execution (go/ssa -> SMT, z3) of the existing/in-flight node placement step across NodeClaim lifecycle stages and of Cluster.Synced over informer event histories with a ghost API store",
+  text="In-flight capacity: for a NodeClaim that is launched / registered / initialized (kubelet reporting allocatable or not yet) a pod is accepted only if it fits the capacity the provider resolved minus bound pods and the DaemonSet overhead still to come, so pending pods that fit in-flight capacity do not open another NodeClaim and capacity is not double-counted. Sync gate: after every history of up to 3 events over {NodeClaim created without provider id, launched, deleted, node marked} on up to 2 NodeClaims, Cluster.Synced is true exactly when every NodeClaim in the API has been launched (has a provider id the state tracks), and nodes marked for deletion are not counted as capacity.",
+  ref="DESIGN.md §7 C04",
+  note="The provisioner's batching window, the launch call itself (C14) and pods that are bound between the pass and the launch are outside."),
+ "C06": dict(
+  technique="bounded symbolic execution (go/ssa -> SMT, z3; exact rational arithmetic for the float cost formula) of disruption.NewCandidate / Candidate.IsEmpty / Emptiness.ShouldDisrupt with symbolic pod-deletion-cost annotations and priorities",
+  text="Emptiness half only: for a node with up to 2 reschedulable pods whose pod-deletion-cost annotation and priority are symbolic integers over their whole documented ranges, Emptiness treats the node as empty exactly when no pod has a positive eviction cost (each pod's cost clamped on its own before summation).",
+  ref="DESIGN.md §7 C06",
+  note="NOT claimed by this check: the replacement price rule (RemoveInstanceTypeOptionsByPriceAndMinValues, spot-to-spot rules, spot pin) and the soundness of the consolidation simulation (the latter rests on C01/C02/C18). See DESIGN.md."),
+ "C18": dict(
+  technique="bounded symbolic execution (go/ssa -> SMT, z3) with write-freezing: every heap cell reachable from the live cluster state and the provider's instance-type catalogue is frozen before the simulation steps run, any write to a frozen cell is a violation; observable accessors compared before/after",
+  text="Simulation steps on copies (DeepCopyNodes, NewExistingNode, ExistingNode.CanAdd/Add; NodeClaim.CanAdd/Add, FinalizeScheduling, Truncate/OrderByPrice, Results.Record) with symbolic pod requests, capacities and an optional host port: no write reaches a cell of the live cluster state or of the provider's instance types/offerings, and node usage, host-port usage, deletion marks and nominations read the same before and after.",
+  ref="DESIGN.md §7 C18",
+  note="One tracked node with one bound pod, one pending pod, 2 instance types x 2 offerings. Memoised fields (InstanceType.allocatableOfferings, sync.Once) are computed before freezing. Whole SimulateScheduling passes with API listing are outside."),
  "C20": dict(
   technique="bounded symbolic execution (go/ssa -> SMT, z3) of nodepoolhealth.State/Tracker and ringbuffer.RingBuffer[bool]; symbolic launch outcomes; native replay of models",
   text="All representation states of the 4-slot ring buffer reachable through the public API (k1 updates, optional Reset/SetStatus, k2 updates, all outcomes symbolic) followed by one more operation; threshold, what-if agreement and reset/SetStatus assertions are SMT obligations over the outcomes. The reachable state space is finite and fully covered, so the result holds for histories of any length (DESIGN §7 C20).",
